@@ -383,4 +383,11 @@ def selftest():
         V("twin-chain-order", BEV, "        updated_vehicle = vehicle.modify_energy(\n            immutables.Map({EnergyType.ELECTRIC: new_energy_kwh})\n        )\n        updated_vehicle = updated_vehicle.tick_energy_expended(\n            immutables.Map({EnergyType.ELECTRIC: vehicle_energy_kwh - new_energy_kwh})\n        )\n        return updated_vehicle\n\n    def idle",
           "        updated_vehicle = vehicle.tick_energy_expended(\n            immutables.Map({EnergyType.ELECTRIC: vehicle_energy_kwh - new_energy_kwh})\n        )\n        updated_vehicle = updated_vehicle.modify_energy(\n            immutables.Map({EnergyType.ELECTRIC: new_energy_kwh})\n        )\n        return updated_vehicle\n\n    def idle", kind="twin"),
         V("twin-empty-mirror", ICE, "        return vehicle.energy[EnergyType.GASOLINE] <= 0", "        return not vehicle.energy[EnergyType.GASOLINE] > 0", kind="twin"),
-    ]
+    ] + _auto()
+
+
+def _auto():
+    from ..loader import Repo
+    from .. import autovariants as av
+    return av.compare_variants(Repo(), [(BEV, "BEV.is_empty"), (ICE, "ICE.is_empty")])
+
